@@ -351,3 +351,7 @@ def run(repo: Repo, rep: Report, tier: str) -> None:
     from .c05 import call_time_rule
 
     call_time_rule(repo, rep, "C06.R7")
+    from .c04 import layout_fold_rule
+
+    layout_fold_rule(repo, rep, "C06.R8", 3 if tier == "thorough" else 2, part="struct")
+
